@@ -329,3 +329,13 @@ UNITS += _carried("C14")
 # whenever the configuration parsed so far holds none - also when that configuration is still empty (parse_string / parse_path / default config files)
 from contracts.check_type import check_type_unit as _check_type_unit  # noqa: E402
 UNITS.append(_check_type_unit("C14"))
+
+# "init_args without class_path" are completed from the previous value of the same parse: previous_config_context must not leave the configuration of a
+# *rejected* --cfg behind for a later parse_string / parse_path (a stale previous value would supply init_args nobody gave)
+from contracts.ctxvars import standard_units as _c14_ctx_units  # noqa: E402
+UNITS += [u for u in _c14_ctx_units("C14") if u.target.endswith(":previous_config_context")]
+
+# a mapping / list of classes: every entry is adapted with the previous value of its own entry (the class an `init_args`-only spec takes its class_path from)
+from contracts.adapt_arms import arms_units as _c14_arms_units  # noqa: E402
+from contracts.share import without_clauses as _c14_without  # noqa: E402
+UNITS += [_c14_without(u, "C14", ("conform:every-key-has-the-declared-key-type",), "containers-of-classes") for u in _c14_arms_units("C14") if u.label in ("Dict", "List")]
